@@ -28,6 +28,7 @@ from mc.specs import domain_fns, spec_signature
 
 LEVEL = "exploration"
 N_QUICK, N_THOROUGH = 6, 7
+OBJECT_BUDGET = 1500
 
 
 def brute_objects(c, n: int) -> List[Any]:
@@ -133,6 +134,19 @@ def check_form_maps(acc: Acc, base, desc: Tuple, form, N: int, payload: dict) ->
         return
     parent = form.comb_class
     children = form.children
+    # ambiguous grammars have very many parse trees: the size bound is lowered (never the
+    # set of objects below it) until the parent has at most OBJECT_BUDGET objects
+    terms_of = domain_fns(parent)[0]
+    total = 0
+    n_eff = -1
+    for n in range(N + 1):
+        total += sum(terms_of(parent, n).values())
+        if total > OBJECT_BUDGET and n_eff >= 1:
+            break
+        n_eff = n
+    if n_eff < N:
+        acc.count("forms_with_lowered_size_bound")
+    N = n_eff
     child_sets = [set(o for n in range(N + 1) for o in brute_objects(ch, n)) for ch in children]
     where = f"{type(base.strategy).__name__}:{kind}"
     try:
@@ -394,19 +408,21 @@ def run(ctx: Ctx) -> None:
     )
     ctx.assumptions = ["plain enumeration of words / parse trees in the domain modules"]
     ctx.bounds = {"configurations": len(cfgs), "sizes_specifications": N_QUICK if ctx.quick else N_THOROUGH, "sizes_forms": 5 if ctx.quick else 6}
-    ctx.pmap(_worker_specs, [(c.to_json(), ctx.tier) for c in cfgs], chunksize=4)
-    classes = forms.w_classes(ctx.tier)
-    step = 24
-    ctx.pmap(_worker_forms_w, [(ctx.tier, lo, min(lo + step, len(classes))) for lo in range(0, len(classes), step)])
+    tasks = []
+    # long tasks first
     shards = []
     for family, stats_list in c09g.families(ctx.tier):
         total = len(dg.grammars(family))
-        for lo in range(0, total, 40):
-            shards.append((ctx.tier, family, [list(s) for s in (stats_list if family == "one" else stats_list[:2])], lo, min(lo + 40, total)))
-    ctx.pmap(_worker_forms_g, shards)
+        for lo in range(0, total, 12):
+            tasks.append((_worker_forms_g, (ctx.tier, family, [list(s) for s in stats_list[:2]], lo, min(lo + 12, total))))
+    classes = forms.w_classes(ctx.tier)
+    step = 8
+    tasks += [(_worker_forms_w, (ctx.tier, lo, min(lo + step, len(classes)))) for lo in range(0, len(classes), step)]
     icfgs = interrupt_configs(ctx.tier)
     ctx.bounds["interrupted_call_configurations"] = len(icfgs)
-    ctx.pmap(_worker_interrupt, [(c.to_json(), ctx.tier) for c in icfgs])
+    tasks += [(_worker_interrupt, (c.to_json(), ctx.tier)) for c in icfgs]
+    tasks += [(_worker_specs, (c.to_json(), ctx.tier)) for c in cfgs]
+    ctx.pmap_tasks(tasks)
 
 
 def replay(acc: Acc, payload: dict) -> None:
